@@ -177,6 +177,13 @@ where
     }
 }
 
+#[cfg(bma400_verif)]
+impl WakeupIntConfig {
+    pub(crate) fn verif_visit(&mut self, f: &mut dyn FnMut(u8, u8) -> Option<u8>) {
+        verif_visit_fields!(self, f, wkup_int_config0: WakeupIntConfig0, wkup_int_config1: WakeupIntConfig1, wkup_int_config2: WakeupIntConfig2, wkup_int_config3: WakeupIntConfig3, wkup_int_config4: WakeupIntConfig4);
+    }
+}
+
 #[cfg(test)]
 mod tests {
     use super::*;
